@@ -138,6 +138,14 @@ def h_canonical_roundtrip(V, smi):
     corr = {n: n for n in order} if 'm' in spec else {n: i + 1 for i, n in enumerate(order)}
     compare_written(V, m, back, corr, text)
     V.prove(str(back) == str(src), 'canonical string of the re-read molecule is the original one', {'text': text})
+    # every mark of the seed text denotes a stereogenic element (seed corpus is chosen so): none may be dropped on reading
+    ref = refsmiles.read(smi.split()[0])
+    marks_a = sum(a.chirality is not None for a in ref.atoms)
+    marks_b = len(ref.double_bond_geometry())
+    V.prove(sum(a.stereo is not None for _, a in src.atoms()) == marks_a, 'every chirality mark of the seed text is kept as '
+            'a label', {'seed': smi})
+    V.prove(sum(b.stereo is not None for *_, b in src.bonds()) == marks_b, 'every marked double bond of the seed text is kept '
+            'as a label', {'seed': smi})
     V.observe('text', text)
 
 
